@@ -44,47 +44,29 @@ func vC07(spec vSpec, maxSteps int, wildOK bool, idxMax int) {
 
 // plain and indexed steps only, shallow-wide
 func H_C07_values() {
-	if vTier() == 1 {
-		vC07(vSpec{Depth: 4, Width: 2, Kinds: "mlsn", KeyAlpha: "ab", KeyMin: 1, KeyMax: 1, StrAlpha: "x", StrMax: 1, NoListInList: true}, 4, false, 1)
-		return
-	}
-	vC07(vSpec{Depth: 3, Width: 2, Kinds: "mlsn", KeyAlpha: "ab", KeyMin: 1, KeyMax: 1, StrAlpha: "x", StrMax: 1, NoListInList: true}, 3, false, 1)
+	vC07(vSpec{Depth: vP("depth", 3, 4), Width: vP("width", 2, 2), Kinds: "mlsn", KeyAlpha: "ab", KeyMin: 1, KeyMax: 1, StrAlpha: "x", StrMax: 1, NoListInList: true}, vP("steps", 3, 4), false, 1)
 }
 
 // wildcards included, shallow
 func H_C07_values_wild() {
-	if vTier() == 1 {
-		vC07(vSpec{Depth: 3, Width: 2, Kinds: "mls", KeyAlpha: "ab", KeyMin: 1, KeyMax: 1, StrAlpha: "x", StrMax: 0, NoListInList: true}, 3, true, 1)
-		return
-	}
-	vC07(vSpec{Depth: 2, Width: 2, Kinds: "mlsn", KeyAlpha: "ab", KeyMin: 1, KeyMax: 1, StrAlpha: "x", StrMax: 1, NoListInList: true}, 3, true, 1)
+	vC07(vSpec{Depth: vP("depth", 2, 3), Width: vP("width", 2, 2), Kinds: []string{"mls", "mlsn"}[vP("nil", 1, 0)], KeyAlpha: "ab", KeyMin: 1, KeyMax: 1, StrAlpha: "x", StrMax: vP("str", 1, 0), NoListInList: true}, vP("steps", 3, 3), true, 1)
 }
 
 // lists nested directly inside lists are in the domain of un-indexed paths
 func H_C07_values_nested() {
-	d := 3
-	if vTier() == 1 {
-		d = 4
-	}
-	vC07(vSpec{Depth: d, Width: 2, MapWidth: 1, Kinds: "mls", KeyAlpha: "ab", KeyMin: 1, KeyMax: 1, StrAlpha: "x", StrMax: 0}, 3, true, -1)
+	d := vP("depth", 3, 4)
+	vC07(vSpec{Depth: d, Width: vP("width", 2, 2), MapWidth: 1, Kinds: "mls", KeyAlpha: "ab", KeyMin: 1, KeyMax: 1, StrAlpha: "x", StrMax: 0}, 3, true, -1)
 }
 
 // values that fan out after an indexed step (wide lists below narrow maps)
 func H_C07_values_fan() {
-	d := 5
-	if vTier() == 1 {
-		d = 6
-	}
-	vC07(vSpec{Depth: d, Width: 2, MapWidth: 1, Kinds: "mls", KeyAlpha: "a", KeyMin: 1, KeyMax: 1, StrAlpha: "x", StrMax: 0, NoListInList: true}, 4, false, 1)
+	d := vP("depth", 5, 6)
+	vC07(vSpec{Depth: d, Width: vP("width", 2, 2), MapWidth: 1, Kinds: "mls", KeyAlpha: "a", KeyMin: 1, KeyMax: 1, StrAlpha: "x", StrMax: 0, NoListInList: true}, vP("steps", 4, 4), false, 1)
 }
 
 // deep-narrow: two indexed steps separated by plain keys need depth 5
 func H_C07_values_deep() {
-	if vTier() == 1 {
-		vC07(vSpec{Depth: 8, Width: 1, Kinds: "mlsn", KeyAlpha: "ab", KeyMin: 1, KeyMax: 1, StrAlpha: "x", StrMax: 1, NoListInList: true}, 5, true, 1)
-		return
-	}
-	vC07(vSpec{Depth: 6, Width: 1, Kinds: "mlsn", KeyAlpha: "ab", KeyMin: 1, KeyMax: 1, StrAlpha: "x", StrMax: 1, NoListInList: true}, 4, true, 1)
+	vC07(vSpec{Depth: vP("depth", 6, 8), Width: 1, Kinds: "mlsn", KeyAlpha: "ab", KeyMin: 1, KeyMax: 1, StrAlpha: "x", StrMax: 1, NoListInList: true}, vP("steps", 4, 5), true, 1)
 }
 
 func init() {
